@@ -20,6 +20,7 @@ EXPLANATION = (
     "and escape tables. R7: the compared identifier is lower-cased; literal prefixes accept both cases. R8: .fill/.blkw/"
     ".stringz expansion. R9: both consumers of the AIR emit origin then every statement in order with the same default origin."
     ' R7 also: a register token is r/R plus exactly one digit 0-7. R8 is decided on emission summaries (push, counted loop, repeat/take, chars/map) with the .blkw count being the unsigned reinterpretation of the literal.'
+    " R10: the source holder every command wraps the file contents in stores the String it is given (boxed / leaked, nothing computed from it) and hands back a view of that text; the escape table is also read off a helper returning an Option by evaluating each arm down to its first push."
 )
 NOT_DECIDED = ("equality of entire images for all programs (follows on paper from R1-R9 by induction over statements); "
                "insensitivity to re-layout beyond the lower-casing, separator and comment rules of the lexer")
@@ -664,6 +665,46 @@ def run(ctx):
     ctx.oblig(ok, {"try_from": "push(orig); for stmt { push(emit(stmt)?) }"}, "dominance")
     if not ok:
         ctx.violation("image-order", tf.file_line(), "RunEnvironment::try_from does not build [origin, emit(stmt 0), emit(stmt 1), ...]")
+    ctx.finish_rule()
+
+    # ------------------------------------------------------------------ R10
+    # the text that is lexed is the text that was read: the holder every command wraps the file's contents in stores that very String
+    # (boxed / leaked / re-borrowed, nothing computed from it) and hands back a view of it. A normalisation at this point - tabs to spaces,
+    # a trimmed end, lower-casing - changes the words of string literals and the positions every span refers to
+    ctx.rule("C01.R10", "the source holder stores and returns the text it is given, unchanged", floor=2)
+    CARRY = re.compile(r"boxed::Box::<T>::(new|into_raw|leak|from_raw)$|boxed::Box<.*>::(new|into_raw|leak)$|String::(into_boxed_str|leak|as_str|as_mut_str)$|"
+                       r"Deref>::deref$|DerefMut>::deref_mut$|convert::(From|Into)<.*>>::(from|into)$|AsRef<str>>::as_ref$|ptr::NonNull::<T>::(new_unchecked|as_ptr|as_ref)$|"
+                       r"Box::<str>::from$|convert::identity$|mem::ManuallyDrop::<T>::new$")
+    def carrier(e, leaf):
+        """e is `leaf` wrapped in nothing but ownership / pointer conversions"""
+        for _ in range(24):
+            if e[0] in ("ref", "deref"):
+                e = e[1]
+            elif e[0] == "cast":
+                e = e[3]
+            elif e[0] == "call" and len(e[2]) == 1 and CARRY.search(str(e[1])):
+                e = e[2][0]
+            else:
+                break
+        return leaf(e), e
+    sn = ctx.fn("lace::symbol::StaticSource::new")
+    aggs_sn = [s_ for b, i_, s_ in sn.assigns() if s_["r"]["k"] == "agg" and str(s_["r"].get("adt", "")).endswith("symbol::StaticSource")]
+    ctx.instance(1)
+    ok_sn, at_sn = len(aggs_sn) == 1, ("unknown",)
+    if ok_sn:
+        for op in aggs_sn[0]["r"]["ops"]:
+            good, at_sn = carrier(sn.expr(op, 16), lambda x: x[0] == "arg" and x[1] == 1)
+            ok_sn = ok_sn and good
+    ctx.oblig(ok_sn, {"StaticSource::new stores": expr_str(sn.expr(aggs_sn[0]["r"]["ops"][0], 16), 80) if aggs_sn else "?"}, "the parameter, boxed")
+    if not ok_sn:
+        ctx.violation("source-holder-changes-text|new", sn.file_line(), "StaticSource::new does not store the text it is handed but `%s`: every command assembles another text "
+                      "than the file holds (the words of string literals and every source position can differ)" % expr_str(at_sn, 80))
+    sa = ctx.fn("lace::symbol::StaticSource::src")
+    ctx.instance(1)
+    good, at_sa = carrier(sa.local_expr(0, 16), lambda x: x[0] == "field" and kit.strip_refs(x[1])[:2] == ("arg", 1))
+    ctx.oblig(good, {"StaticSource::src returns": expr_str(sa.local_expr(0, 16), 80)}, "a view of the stored text")
+    if not good:
+        ctx.violation("source-holder-changes-text|src", sa.file_line(), "StaticSource::src does not hand back the stored text but `%s`" % expr_str(at_sa, 80))
     ctx.finish_rule()
 
 
